@@ -358,6 +358,9 @@ def check_prototypes(ctx, num=4):
         okd = len(draws) == 1 and len(draws[0].args) >= 1 and norm.U(draws[0].args[0]) == "self.cpu_io_ratio"
         rets = [r for r in own_nodes(m.node) if isinstance(r, ast.Return) and r.value is not None]
         vn = parent(draws[0]).targets[0].id if okd and isinstance(parent(draws[0]), ast.Assign) else None
+        if okd and vn is None and isinstance(parent(draws[0]), ast.Call) and norm.call_name(parent(draws[0])) in ("max", "min") and isinstance(parent(parent(draws[0])), ast.Assign) \
+                and len(parent(parent(draws[0])).targets) == 1 and isinstance(parent(parent(draws[0])).targets[0], ast.Name):
+            vn = parent(parent(draws[0])).targets[0].id      # val = max(<draw>, -1): drawn and clamped in one expression
         okr = len(rets) == 1 and ((vn and norm.U(rets[0].value) == f"self.generate_segment_from_val({vn})")
                                   or (okd and not clamp and norm.U(rets[0].value) == f"self.generate_segment_from_val({norm.U(draws[0])})"))
         ctx.ob(num, "K6", f"{meth}: the prototype is selected from a normal draw centred on cpu_io_ratio (so the parameter reaches the selection)", okd and bool(okr), m,
@@ -545,7 +548,31 @@ def check_clock(ctx, num=7):
     ctx.ob(num, "K6", "run_one_tick hands out exactly the pipelines generated in that tick (or none)", okr, f, rets[0] if rets else f.node, construct="returned pipelines", detail=f"{[stmt_text(r) for r in rets]}")
 
 
+def check_ratio_domain(ctx, num=6):
+    """The property ranges over cpu_io_ratio in the closed interval [0, 1]: the generator's own validation accepts both ends (a validation that
+    is stricter than `0 <= r <= 1` refuses a legal configuration)."""
+    P = ctx.P
+    ini = P.fn(WL, "WorkloadGenerator.__init__")
+    asserts = [n for n in own_nodes(ini.node) if isinstance(n, ast.Assert) and "cpu_io_ratio" in norm.names_in(n.test)]
+    allowed = {("cmp", "<=", "0", "cpu_io_ratio"), ("cmp", "<=", "0.0", "cpu_io_ratio"), ("cmp", "<=", "cpu_io_ratio", "1"), ("cmp", "<=", "cpu_io_ratio", "1.0")}
+    for a in asserts:
+        atoms = norm.atoms_true(norm.nnf(a.test))
+        bad = [x for x in atoms if x not in allowed]
+        ctx.ob(num, "K2", "the generator accepts every cpu_io_ratio of the closed interval [0, 1] (its validation is not stricter than 0 <= r <= 1)", not bad, ini, a,
+               construct="assert 0 <= cpu_io_ratio <= 1", detail=f"conditions required: {sorted(norm.show(x) for x in atoms)}" + (f"; stricter than the documented range: {sorted(norm.show(x) for x in bad)}" if bad else ""))
+    raises = [n for n in own_nodes(ini.node) if isinstance(n, ast.Raise)]
+    g = cfg_of(ini, subst_env=False)
+    for r in raises:
+        fs = g.facts_at(r)
+        about = [x for x in fs if "cpu_io_ratio" in norm.show(x)]
+        if about:
+            okr = any(norm.entails(fs, t) for t in (("cmp", "<", "cpu_io_ratio", "0"), ("cmp", "<", "1", "cpu_io_ratio"), ("cmp", "<", "1.0", "cpu_io_ratio"), ("cmp", "<", "cpu_io_ratio", "0.0")))
+            ctx.ob(num, "K2", "the generator accepts every cpu_io_ratio of the closed interval [0, 1] (its validation is not stricter than 0 <= r <= 1)", okr, ini, r,
+                   construct="refusal on cpu_io_ratio", detail=f"facts at the raise: {sorted(norm.show(x) for x in about)}")
+
+
 def run(ctx):
+    check_ratio_domain(ctx, 6)
     r = check_batch(ctx, 1)
     if r:
         check_shapes(ctx, *r)
